@@ -588,7 +588,7 @@ def run(ctx):
     import multiprocessing as mp
 
     rnd = random.Random(ctx.seed)
-    cli_sets = [sets[0], sets[1]] + ENCODING_SETS + BACK_END_REJECTED + [sets[i] for i in rnd.sample(range(len(sets)), ctx.pick(2, 10))]
+    cli_sets = [sets[0], sets[1]] + ENCODING_SETS + [({"m.emb": 'import "nope.emb" as n\nstruct Foo:\n  0 [+1]  UInt  x\n'}, "m.emb")] + BACK_END_REJECTED + [sets[i] for i in rnd.sample(range(len(sets)), ctx.pick(2, 10))]
     jobs = [(f, m, hs) for (f, m) in cli_sets for hs in (0, 3)]
     with mp.get_context("fork").Pool(min(16, len(jobs))) as pool:
         outs = pool.map(_cli_job, jobs)
@@ -604,7 +604,18 @@ def run(ctx):
         for o in (a, b):
             if o["embossc"] != o["embossc_swapped_dirs"]:
                 stats.fail({"kind": "cli-import-dir-order"}, {"files": files, "main": main}, "embossc output depends on the order of import dirs holding identical files")
-            if o["embossc"] != o["embossc_single_dir"]:
+            def once(t):
+                # a file that is found nowhere is reported with one note per directory tried: the number
+                # of those notes follows the number of directories, whatever they contain
+                if not isinstance(t, str) or "Unable to read file." not in t:
+                    return t
+                out_ = []
+                for ln_ in t.split("\n"):
+                    if not (out_ and out_[-1] == ln_ and "No such file or directory" in ln_):
+                        out_.append(ln_)
+                return "\n".join(out_)
+
+            if tuple(once(x_) for x_ in o["embossc"]) != tuple(once(x_) for x_ in o["embossc_single_dir"]):
                 k_ = [i_ for i_ in range(3) if o["embossc"][i_] != o["embossc_single_dir"][i_]][0]
                 x, y = _first_diff(str(o["embossc_single_dir"][k_]), str(o["embossc"][k_]))
                 stats.fail({"kind": "cli-import-dir-multiplicity", "what": ["exit-status", "diagnostics", "header"][k_]}, {"files": files, "main": main}, "embossc output differs between one import dir and two import dirs listing identical files\none dir:  %r\ntwo dirs: %r" % (x, y))
